@@ -323,14 +323,11 @@ theorem Own.ext {e : Option Rat} {a a' : AS} (h : Own e a) (x : Ext a a') : Own 
 
 theorem feed_own (lb : St) (e : Env) : Own lb.sub.ema (feed lb e).sub := ⟨rfl, rfl⟩
 
-/-- the operation proper (`Open()` is the first operation of a run: the log is still empty) -/
-theorem act_own (cfg : Cfg) (lb : St) (op : Op) (h0 : op = .opn → lb.sub.adjLog = []) :
+/-- the operation proper (every operation, `Open()` included, starts with an empty log) -/
+theorem act_own (cfg : Cfg) (lb : St) (op : Op) :
     Own lb.sub.ema (act cfg lb op).1.sub := by
   cases op with
-  | opn =>
-    have h := h0 rfl
-    show Own lb.sub.ema lb.sub
-    unfold Own; rw [h]; exact ⟨rfl, rfl⟩
+  | opn => exact feed_own lb ⟨[], []⟩
   | loaded l e => exact (feed_own lb e).ext (load_still cfg _ l).ext
   | join ep e => exact (feed_own lb e).ext (notify_still cfg _ _).ext
   | leave ep e => exact (feed_own lb e).ext (notify_still cfg _ _).ext
@@ -370,10 +367,10 @@ theorem tapesRead_still (lb : St) : Still lb.sub (tapesRead lb).sub := by
 
 /-- one operation of the balancer: the `_AdjustAperture` records it reports form a chain from the smoothed
     load held before the operation to the smoothed load held after it -/
-theorem own_step (cfg : Cfg) (lb : St) (op : Op) (h0 : op = .opn → lb.sub.adjLog = []) :
+theorem own_step (cfg : Cfg) (lb : St) (op : Op) :
     chainB lb.sub.ema (stepSt cfg lb op).1.sub.adjLog = true ∧
     (stepSt cfg lb op).1.sub.ema = heldAfter lb.sub.ema (stepSt cfg lb op).1.sub.adjLog := by
-  have h := ((act_own cfg lb op h0).ext (finish_ext cfg (act cfg lb op).1)).ext
+  have h := ((act_own cfg lb op).ext (finish_ext cfg (act cfg lb op).1)).ext
     (tapesRead_still ((act cfg lb op).1.finish (sub cfg)).1).ext
   exact h
 
